@@ -126,6 +126,7 @@ func runC04(c *core.Ctx) {
 	c04ServerWrap(c)
 	c04Codec(c)
 	c04ClientBookkeeping(c)
+	bufferFailedWriteLeavesState(c, "C04.R6")
 	// R3
 	c01CommitGateAs(c, "C04.R3")
 }
@@ -400,6 +401,7 @@ func c04ClientBookkeeping(c *core.Ctx) {
 	ptr := types.NewPointer(bw)
 	flush := c.P.Method(ptr, "flush")
 	write := declaredMethod(c, ptr, "Write")
+	flushContentLengthIsBodySize(c, "C04.R5")
 	if flush == nil || write == nil {
 		c.Fail("C04.R5", "anchor/blobWriter.flush", 0, "blobWriter.flush / Write not found")
 		return
